@@ -5,7 +5,7 @@ specs=json.load(open('/verif/harness/checks.json'))
 na_reasons=json.load(open('/verif/tools/not_applicable.json')) if __import__('os').path.exists('/verif/tools/not_applicable.json') else {}
 notes=json.load(open('/verif/tools/level_notes.json')) if __import__('os').path.exists('/verif/tools/level_notes.json') else {}
 m={"version":1,
- "setup_cmd":"cd /verif/engine && GOFLAGS=-mod=mod GOPROXY=off GOSUMDB=off GOTOOLCHAIN=local go build -o ../bin/gosx . && cd /verif && bin/gosx list >/dev/null",
+ "setup_cmd":"cd /verif/engine && GOFLAGS=-mod=mod GOPROXY=off GOSUMDB=off GOTOOLCHAIN=local go build -o ../bin/gosx . && cd /verif && bin/gosx list >/dev/null && bin/gosx selftest -n 8",
  "hooks":{"guard":"verif","enable":"harness files /verif/harness/zz_verif_*.go (all //go:build verif) are injected into package mqtt by overlay: go/packages Overlay + -tags=verif for the symbolic run, go test -tags verif -overlay for native replay; besides that, /repo carries one guarded hook commit: hooks_verif.go / hooks_off.go and one verifHookPoint call in Ping (no-op without the tag)","baseline_off_cmd":"cd /repo && go test -vet=off -count=1 -timeout 25m ./...","source_commits":[__import__("subprocess").check_output(["git","-C","/repo","log","--format=%H","-1","--grep","verif hook"]).decode().strip()],"add_only":True},
  "engines":[{"name":"gosx","path":"/verif/engine","serves_properties":sorted(k for k in specs if k.startswith('C')),"kind_free_text":"home-made path-wise symbolic executor for Go SSA (golang.org/x/tools/go/ssa v0.29.0) with z3 5.1.0 (z3-new) as deciding back end, z3 4.8.12 / cvc5 1.0 selectable; counterexamples replayed natively with go test -overlay"}],
  "checks":[], "not_applicable":[],
